@@ -313,7 +313,27 @@ func c15Tickets(c *Ctx, p *Prog) {
 		if !isLookup {
 			bad = "the ticket returned is not the one looked up"
 		}
-		if !hasFact(ff.NC(r.Block()), func(f Fact) bool { _, ok := p.FactCallBool(f, "(*$M/transports/scramblesuit.ssTicket).isValid"); return ok && f.Pol }) {
+		validKnown := hasFact(ff.NC(r.Block()), func(f Fact) bool {
+			if _, ok := p.FactCallBool(f, "(*$M/transports/scramblesuit.ssTicket).isValid"); ok && f.Pol {
+				return true
+			}
+			// the same test written out: issuedAt + 604800 > time.Now().Unix() (in any of its forms)
+			bo, ok := f.Cond.(*ssa.BinOp)
+			if !ok {
+				return false
+			}
+			op := bo.Op
+			if !f.Pol {
+				op = negOp(op)
+			}
+			t := p.newTermer()
+			x, y := t.Term(bo.X), t.Term(bo.Y)
+			if op == token.LSS { // now < issuedAt+lifetime
+				x, y, op = y, x, token.GTR
+			}
+			return len(t.errs) == 0 && op == token.GTR && termEq(x, "(<ssTicket>.issuedAt+604800)") && termEq(y, "unix(now)")
+		})
+		if !validKnown {
 			bad = "a ticket is handed out without isValid() having succeeded: an expired ticket would be presented and the connection die"
 		}
 		if len(p.CallsIn(gt, "(*$M/transports/scramblesuit.ssTicketStore).serialize")) == 0 {
